@@ -1,6 +1,7 @@
-/- Driver ops for Knapsack.  Ops: knapsack.step, knapsack.state -/
+/- Driver ops for Knapsack.  Ops: knapsack.step, knapsack.state, knapsack.judge, knapsack.bounds -/
 import JumanjiModel.Bridge.Json
 import JumanjiModel.Env.Knapsack.Model
+import JumanjiModel.Env.Knapsack.Bounds
 import JumanjiModel.Prim.Float
 open Lean Jb
 
@@ -61,6 +62,14 @@ def opJudge : Op := fun j => do
     jBool (decide (s' = s) && ts.stepType == .last && ts.reward == [0])
   pure (jObj [("illegal_ok", ill)])
 
+def jBounds (t : Jm.OB.Table) : Json :=
+  jObj (t.map fun e => (e.1, jObj [("lo", match e.2.1 with | some r => jRat r | none => Json.null),
+                                   ("hi", match e.2.2 with | some r => jRat r | none => Json.null)]))
+
+/-- {"cfg": {...}} → {leaf path: {"lo": rat|null, "hi": rat|null}}: the proved observation bounds (C01) -/
+def opBounds : Op := fun _ => pure (jBounds obsBounds)
+
 def ops : List (String × Op) :=
-  [("knapsack.step", opStep), ("knapsack.state", opState), ("knapsack.judge", opJudge)]
+  [("knapsack.step", opStep), ("knapsack.state", opState), ("knapsack.judge", opJudge),
+   ("knapsack.bounds", opBounds)]
 end Jb.Knapsack
